@@ -18,6 +18,38 @@ type WitnessEntry struct {
 	Obligation string `json:"obligation"`
 	File       string `json:"file"`
 	PkgDir     string `json:"pkgdir"`
+	Probe      string `json:"probe,omitempty"` // property id: run on every check of that property (bounded test of an assumed clause)
+	Assumes    string `json:"assumes,omitempty"`
+}
+
+// runProbes: assumed clauses that the generator cannot check (executor-level summaries) are
+// tested on the real code on every run — bounded evidence, never counted as proved.
+func (e *Engine) runProbes(cfg RunConfig) (ran []string, violated []string, files []string) {
+	var idx []WitnessEntry
+	if !loadJSON("/verif/witness/index.json", &idx) {
+		return
+	}
+	for _, w := range idx {
+		if w.Probe != cfg.Prop {
+			continue
+		}
+		found, bad, rec := e.runWitness(cfg, w.Obligation)
+		if !found {
+			continue
+		}
+		ran = append(ran, w.Obligation+": "+w.Assumes)
+		if bad {
+			f := filepath.Join(cfg.Work, "replay_probe_"+sanitize(tailName(w.Obligation))+".json")
+			rec["obligation"] = w.Obligation
+			rec["assumed_clause"] = w.Assumes
+			rec["verdict"] = "violation (bounded probe of an assumed clause failed on the real code)"
+			b, _ := json.MarshalIndent(rec, "", " ")
+			os.WriteFile(f, b, 0o644)
+			violated = append(violated, w.Obligation)
+			files = append(files, f)
+		}
+	}
+	return
 }
 
 func (e *Engine) runWitness(cfg RunConfig, name string) (found bool, violated bool, rec map[string]interface{}) {
